@@ -70,9 +70,9 @@ func c09Setup(rc *RunCtx) simrt.Config {
 	if c.kind.pipelined() && r.Choose(3) == 0 {
 		c.Lq = []int{2 * c.L, c.L + 3}[r.Choose(2)]
 	}
-	c.callers = 1 + r.Choose(6)
+	c.callers = 1 + r.Choose(widen(6, 12))
 	for i := 0; i < c.callers; i++ {
-		c.perCall = append(c.perCall, 1+r.Choose(4))
+		c.perCall = append(c.perCall, 1+r.Choose(widen(4, 8)))
 	}
 	c.pCancel = []int{0, 20, 50}[r.Choose(3)]
 	c.pNoReply = []int{0, 20}[r.Choose(2)]
